@@ -2,16 +2,17 @@
 import SuppModel.Den.Lemmas
 namespace SuppModel.Den
 
-/-- per name: the site `x` holds after a normal run of `s` is produced by `s` or passes through it -/
-def Step (s : Stmt) (x : Ident) (σ σ' : State) : Prop :=
-  ∀ d, σ' x = some d → gen s x (some d) ∨ (pass s x ∧ σ x = some d)
+/-- per name: what `x` holds after a normal run of `s` is produced by `s` or passes through it.
+    `sm = true`: stated for bindings only (`v ≠ none`); `sm = false`: also for "unbound" -/
+def Step (sm : Bool) (s : Stmt) (x : Ident) (σ σ' : State) : Prop :=
+  ∀ v, (sm = true → v ≠ none) → σ' x = v → gen s x v ∨ (pass s x ∧ σ x = v)
 
-def StepAt (s : Stmt) (r : RId) (x : Ident) (σ σ' : State) : Prop :=
-  ∀ d, σ' x = some d → genAt s r x (some d) ∨ (passAt s r x ∧ σ x = some d)
+def StepAt (sm : Bool) (s : Stmt) (r : RId) (x : Ident) (σ σ' : State) : Prop :=
+  ∀ v, (sm = true → v ≠ none) → σ' x = v → lateRead s r x = true ∨ genAt s r x v ∨ (passAt s r x ∧ σ x = v)
 
 /-- outcome and state of a fragment execution -/
-def Good (s : Stmt) (x : Ident) (σ : State) (o : Outcome) (σ' : State) : Prop :=
-  (o = .normal ∧ Step s x σ σ') ∨ (∃ r, o = .stop r ∧ StepAt s r x σ σ')
+def Good (sm : Bool) (s : Stmt) (x : Ident) (σ : State) (o : Outcome) (σ' : State) : Prop :=
+  (o = .normal ∧ Step sm s x σ σ') ∨ (∃ r, o = .stop r ∧ StepAt sm s r x σ σ')
 
 theorem isReads_isEvents : ∀ s, isReads s = true → isEvents s = true
   | .skip, _ => rfl
@@ -79,217 +80,461 @@ theorem isReads_pass (s : Stmt) (h : isReads s = true) (x : Ident) (v : Option S
 theorem isName_inFrag (st : Bool) (s : Stmt) (h : isName s = true) : inFrag st s = true := by
   cases s <;> simp_all [isName, inFrag]
 
-theorem exec_good (st : Bool) (x : Ident) (h : Exec s σ o σ') :
-    (inFrag st s = true → Good s x σ o σ') ∧ (inFrag.inHs st s = true → Good s x σ o σ') := by
+/-! ### comprehension chains -/
+
+theorem isBinds_mem (s : Stmt) (h : isBinds s = true) (x : Ident) :
+    (∀ v, gen s x v → x ∈ bindsOf s) ∧ (pass s x → x ∉ bindsOf s) := by
+  induction s <;> simp_all [isBinds, gen, pass, bindsOf]
+  all_goals grind
+
+theorem isReads_passAt (s : Stmt) (h : isReads s = true) (r : RId) (x : Ident) :
+    (passAt s r x → r ∈ readIds s) ∧ ∀ v, ¬ genAt s r x v := by
+  induction s with
+  | skip => simp [passAt, genAt]
+  | read y r' => simp [passAt, genAt, readIds, readsOf]
+  | seq s t ihs iht =>
+      simp only [isReads, Bool.and_eq_true] at h
+      have a := ihs h.1; have b := iht h.2
+      have ps := fun v => isReads_pass s h.1 x v
+      simp only [passAt, genAt, readIds, readsOf, List.map_append, List.mem_append] at *
+      grind
+  | _ => simp [isReads] at h
+
+theorem isReads_exNames (s : Stmt) (h : isReads s = true) : exNames s = [] := by
+  induction s <;> simp_all [isReads, exNames]
+
+def EStep (s : Stmt) (x : Ident) (σ σ' : State) : Prop := ∀ v, σ' x = v → gen s x v ∨ (pass s x ∧ σ x = v)
+def EStepAt (s : Stmt) (r : RId) (x : Ident) (σ σ' : State) : Prop :=
+  ∀ v, σ' x = v → genAt s r x v ∨ (passAt s r x ∧ σ x = v)
+
+theorem chain_events (x : Ident) (h : Chain s σ o σ') :
+    isEvents s = true → (o = .normal ∧ EStep s x σ σ') ∨ (∃ r, o = .stop r ∧ EStepAt s r x σ σ') := by
+  induction h with
+  | skip => simp [EStep, gen, pass]
+  | @bind y d σ =>
+      intro _; refine .inl ⟨rfl, ?_⟩
+      intro v hv; by_cases e : x = y <;> simp_all [State.upd, gen, pass]
+  | read => simp [EStep, gen, pass]
+  | readStop => simp [EStepAt, genAt, passAt]
+  | seqN _ _ ih1 ih2 =>
+      intro he; simp only [isEvents, Bool.and_eq_true] at he
+      have g1 := ih1 he.1; have g2 := ih2 he.2
+      simp only [EStep, EStepAt, gen, pass, genAt, passAt] at *
+      grind
+  | seqS _ ih1 =>
+      intro he; simp only [isEvents, Bool.and_eq_true] at he
+      have g1 := ih1 he.1
+      simp only [EStep, EStepAt, gen, pass, genAt, passAt] at *
+      grind
+  | _ => simp [isEvents]
+
+theorem chain_events_normal (x : Ident) (he : isEvents s = true) (h : Chain s σ .normal σ') : EStep s x σ σ' := by
+  rcases chain_events x h he with ⟨_, h⟩ | ⟨r, h, _⟩
+  · exact h
+  · cases h
+
+theorem chain_events_stop (x : Ident) (he : isEvents s = true) (h : Chain s σ (.stop r) σ') : EStepAt s r x σ σ' := by
+  rcases chain_events x h he with ⟨h, _⟩ | ⟨r', h, h2⟩
+  · cases h
+  · cases h; exact h2
+
+theorem late_of_pass (x : Ident) (r : RId) (s : Stmt) (hf : chainFrag s = true) (hp : passAt s r x)
+    (hx : x ∈ compTargets s) : lateChain s r x = true := by
+  induction s with
+  | seq s t ihs iht =>
+      simp only [chainFrag, Bool.and_eq_true] at hf
+      simp only [compTargets] at hx
+      simp only [passAt] at hp
+      simp only [lateChain, Bool.or_eq_true, Bool.and_eq_true, decide_eq_true_eq]
+      rcases hp with hp | ⟨hp, _⟩
+      · exact .inl ⟨(isReads_passAt s hf.1 r x).1 hp, hx⟩
+      · exact .inr (iht hf.2 hp hx)
+  | cfor tg ifs inner _ _ ihn =>
+      simp only [chainFrag, Bool.and_eq_true] at hf
+      simp only [compTargets, List.mem_append] at hx
+      simp only [passAt] at hp
+      simp only [lateChain, Bool.or_eq_true, Bool.and_eq_true, decide_eq_true_eq]
+      rcases hp with ⟨hp, ht⟩ | ⟨hp, _, ht⟩
+      · rcases hx with hx | hx
+        · exact absurd hx ((isBinds_mem tg hf.1.1 x).2 ht)
+        · exact .inl ⟨(isReads_passAt ifs hf.1.2 r x).1 hp, hx⟩
+      · rcases hx with hx | hx
+        · exact absurd hx ((isBinds_mem tg hf.1.1 x).2 ht)
+        · exact .inr (ihn hf.2 hp hx)
+  | _ => simp_all [compTargets]
+
+def CN (s : Stmt) (x : Ident) (σa σb : State) : Prop := x ∉ compTargets s → σb x = σa x
+def CS (s : Stmt) (r : RId) (x : Ident) (σa σb : State) : Prop :=
+  ∀ v, σb x = v → lateChain s r x = true ∨ genAt s r x v ∨ (passAt s r x ∧ σa x = v)
+
+/-- inside a comprehension: names it does not bind keep their value; at a read, `x` holds what supp's straight-line
+    reading of the chain says, unless the read is a late one -/
+theorem chain_ok (x : Ident) (h : Chain s σa o σb) :
+    chainFrag s = true → (o = .normal ∧ CN s x σa σb) ∨ (∃ r, o = .stop r ∧ CS s r x σa σb) := by
+  induction h with
+  | skip => intro _; exact .inl ⟨rfl, fun _ => rfl⟩
+  | bind => simp [chainFrag]
+  | read => intro _; exact .inl ⟨rfl, fun _ => rfl⟩
+  | readStop => intro _; exact .inr ⟨_, rfl, fun v hv => .inr (.inr ⟨by simp [passAt], hv⟩)⟩
+  | @seqN s σ σ1 t o σ2 h1 _ _ ih2 =>
+      intro hf; simp only [chainFrag, Bool.and_eq_true] at hf
+      have e1 := chain_events_normal x (isReads_isEvents s hf.1) h1
+      have rp := fun v => isReads_pass s hf.1 x v
+      have g2 := ih2 hf.2
+      simp only [EStep, CN, CS, compTargets, gen, pass, genAt, passAt, lateChain, Bool.or_eq_true] at *
+      grind
+  | @seqS s σ r σ1 t h1 _ =>
+      intro hf; simp only [chainFrag, Bool.and_eq_true] at hf
+      have e1 := chain_events_stop x (isReads_isEvents s hf.1) h1
+      have rp := fun v => (isReads_passAt s hf.1 r x).2 v
+      simp only [EStepAt, CN, CS, compTargets, gen, pass, genAt, passAt, lateChain, Bool.or_eq_true] at *
+      grind
+  | done => intro _; exact .inl ⟨rfl, fun _ => rfl⟩
+  | @iterSkip tg σ σ1 ifs σ2 inner o σ3 h1 h2 _ _ _ ih3 =>
+      intro hf
+      have g3 := ih3 hf
+      simp only [chainFrag, Bool.and_eq_true] at hf
+      have e1 := chain_events_normal x (isBinds_isEvents tg hf.1.1) h1
+      have e2 := chain_events_normal x (isReads_isEvents ifs hf.1.2) h2
+      have rp := fun v => isReads_pass ifs hf.1.2 x v
+      have bm := isBinds_mem tg hf.1.1 x
+      simp only [EStep, CN, CS, compTargets, List.mem_append, not_or, gen, pass, genAt, passAt, lateChain,
+        Bool.or_eq_true] at *
+      grind
+  | @iter tg σ σ1 ifs σ2 inner σ3 o σ4 h1 h2 _ _ _ _ ihn ih4 =>
+      intro hf
+      have g4 := ih4 hf
+      simp only [chainFrag, Bool.and_eq_true] at hf
+      have gn := ihn hf.2
+      have e1 := chain_events_normal x (isBinds_isEvents tg hf.1.1) h1
+      have e2 := chain_events_normal x (isReads_isEvents ifs hf.1.2) h2
+      have rp := fun v => isReads_pass ifs hf.1.2 x v
+      have bm := isBinds_mem tg hf.1.1 x
+      have lp := fun r => late_of_pass x r inner hf.2
+      have ri := fun r => (isReads_passAt ifs hf.1.2 r x).1
+      simp only [EStep, CN, CS, compTargets, List.mem_append, not_or, gen, pass, genAt, passAt, lateChain,
+        Bool.or_eq_true, Bool.and_eq_true, decide_eq_true_eq] at *
+      grind
+  | @iterS1 tg σ σ1 ifs r σ2 inner h1 h2 _ _ =>
+      intro hf
+      simp only [chainFrag, Bool.and_eq_true] at hf
+      have e1 := chain_events_normal x (isBinds_isEvents tg hf.1.1) h1
+      have e2 := chain_events_stop x (isReads_isEvents ifs hf.1.2) h2
+      have rp := fun v => (isReads_passAt ifs hf.1.2 r x).2 v
+      simp only [EStep, EStepAt, CN, CS, gen, pass, genAt, passAt] at *
+      grind
+  | @iterS2 tg σ σ1 ifs σ2 inner r σ3 h1 h2 _ _ _ ihn =>
+      intro hf
+      simp only [chainFrag, Bool.and_eq_true] at hf
+      have gn := ihn hf.2
+      have e1 := chain_events_normal x (isBinds_isEvents tg hf.1.1) h1
+      have e2 := chain_events_normal x (isReads_isEvents ifs hf.1.2) h2
+      have rp := fun v => isReads_pass ifs hf.1.2 x v
+      simp only [EStep, CN, CS, gen, pass, genAt, passAt, lateChain, Bool.or_eq_true] at *
+      grind
+
+theorem exName_binds (nm : Stmt) (y : Ident) (h : isName nm = true) (e : exName nm = some y) : y ∈ bindsOf nm := by
+  cases nm <;> simp_all [isName, exName, bindsOf]
+
+/-- `sm = false` needs `x` not to be an except-clause name of `s` (those are unbound again when the handler is left,
+    which supp does not model) -/
+theorem exec_good (sm st : Bool) (x : Ident) (h : Exec s σ o σ') :
+    (inFrag st s = true → (sm = true ∨ x ∉ exNames s) → Good sm s x σ o σ') ∧
+    (inFrag.inHs st s = true → (sm = true ∨ x ∉ exNames s) → Good sm s x σ o σ') := by
   induction h with
   | skip => simp [Good, Step, gen, pass, inFrag.inHs]
   | @bind x' d σ =>
-      refine ⟨fun _ => .inl ⟨rfl, ?_⟩, by simp [inFrag.inHs]⟩
-      intro d' hd; by_cases e : x = x' <;> simp_all [State.upd, gen, pass]
+      refine ⟨fun _ _ => .inl ⟨rfl, ?_⟩, by simp [inFrag.inHs]⟩
+      intro v hv hd; by_cases e : x = x' <;> simp_all [State.upd, gen, pass]
   | gbind => simp [inFrag, inFrag.inHs]
   | read => simp [Good, Step, gen, pass, inFrag.inHs]
-  | readStop => simp [Good, StepAt, genAt, passAt, inFrag.inHs]
+  | readStop => simp +contextual [Good, StepAt, genAt, passAt, inFrag.inHs]
   | seqN _ _ ih1 ih2 =>
-      refine ⟨fun hf => ?_, by simp [inFrag.inHs]⟩
+      refine ⟨fun hf hx => ?_, by simp [inFrag.inHs]⟩
       simp only [inFrag, Bool.and_eq_true] at hf
-      have g1 := ih1.1 hf.1; have g2 := ih2.1 hf.2
-      simp only [Good, Step, StepAt, gen, pass, genAt, passAt] at *
+      simp only [exNames, List.mem_append, not_or, or_and_left] at hx
+      have g1 := ih1.1 hf.1 hx.1; have g2 := ih2.1 hf.2 hx.2
+      simp only [Good, Step, StepAt, gen, pass, genAt, passAt, lateRead, Bool.or_eq_true] at *
       grind
   | seqA _ hne ih1 =>
-      refine ⟨fun hf => ?_, by simp [inFrag.inHs]⟩
+      refine ⟨fun hf hx => ?_, by simp [inFrag.inHs]⟩
       simp only [inFrag, Bool.and_eq_true] at hf
-      have g1 := ih1.1 hf.1
-      simp only [Good, Step, StepAt, gen, pass, genAt, passAt] at *
+      simp only [exNames, List.mem_append, not_or, or_and_left] at hx
+      have g1 := ih1.1 hf.1 hx.1
+      simp only [Good, Step, StepAt, gen, pass, genAt, passAt, lateRead, Bool.or_eq_true] at *
       grind
   | iteT _ _ ihc iha =>
-      refine ⟨fun hf => ?_, by simp [inFrag.inHs]⟩
+      refine ⟨fun hf hx => ?_, by simp [inFrag.inHs]⟩
       simp only [inFrag, Bool.and_eq_true] at hf
-      have gc := ihc.1 (isEvents_inFrag st _ hf.1.1); have ga := iha.1 hf.1.2
-      simp only [Good, Step, StepAt, gen, pass, genAt, passAt] at *
+      simp only [exNames, List.mem_append, not_or, or_and_left] at hx
+      have gc := ihc.1 (isEvents_inFrag st _ hf.1.1) hx.1.1; have ga := iha.1 hf.1.2 hx.1.2
+      simp only [Good, Step, StepAt, gen, pass, genAt, passAt, lateRead, Bool.or_eq_true] at *
       grind
   | iteF _ _ ihc ihb =>
-      refine ⟨fun hf => ?_, by simp [inFrag.inHs]⟩
+      refine ⟨fun hf hx => ?_, by simp [inFrag.inHs]⟩
       simp only [inFrag, Bool.and_eq_true] at hf
-      have gc := ihc.1 (isEvents_inFrag st _ hf.1.1); have gb := ihb.1 hf.2
-      simp only [Good, Step, StepAt, gen, pass, genAt, passAt] at *
+      simp only [exNames, List.mem_append, not_or, or_and_left] at hx
+      have gc := ihc.1 (isEvents_inFrag st _ hf.1.1) hx.1.1; have gb := ihb.1 hf.2 hx.2
+      simp only [Good, Step, StepAt, gen, pass, genAt, passAt, lateRead, Bool.or_eq_true] at *
       grind
   | iteS _ ihc =>
-      refine ⟨fun hf => ?_, by simp [inFrag.inHs]⟩
+      refine ⟨fun hf hx => ?_, by simp [inFrag.inHs]⟩
       simp only [inFrag, Bool.and_eq_true] at hf
-      have gc := ihc.1 (isEvents_inFrag st _ hf.1.1)
-      simp only [Good, Step, StepAt, gen, pass, genAt, passAt] at *
+      simp only [exNames, List.mem_append, not_or, or_and_left] at hx
+      have gc := ihc.1 (isEvents_inFrag st _ hf.1.1) hx.1.1
+      simp only [Good, Step, StepAt, gen, pass, genAt, passAt, lateRead, Bool.or_eq_true] at *
       grind
   | whileExit _ _ ihc ihe =>
-      refine ⟨fun hf => ?_, by simp [inFrag.inHs]⟩
+      refine ⟨fun hf hx => ?_, by simp [inFrag.inHs]⟩
       simp only [inFrag, Bool.and_eq_true] at hf
-      have gc := ihc.1 (isEvents_inFrag st _ hf.1.1); have ge := ihe.1 hf.2
-      simp only [Good, Step, StepAt, gen, pass, genAt, passAt] at *
+      simp only [exNames, List.mem_append, not_or, or_and_left] at hx
+      have gc := ihc.1 (isEvents_inFrag st _ hf.1.1) hx.1.1; have ge := ihe.1 hf.2 hx.2
+      simp only [Good, Step, StepAt, gen, pass, genAt, passAt, lateRead, Bool.or_eq_true] at *
       grind
   | whileStep _ _ hob _ ihc ihb ihw =>
-      refine ⟨fun hf => ?_, by simp [inFrag.inHs]⟩
-      have gw := ihw.1 hf
+      refine ⟨fun hf hx => ?_, by simp [inFrag.inHs]⟩
+      have gw := ihw.1 hf hx
       simp only [inFrag, Bool.and_eq_true] at hf
-      have gc := ihc.1 (isEvents_inFrag st _ hf.1.1); have gb := ihb.1 hf.1.2
-      simp only [Good, Step, StepAt, gen, pass, genAt, passAt] at *
+      simp only [exNames, List.mem_append, not_or, or_and_left] at hx
+      have gc := ihc.1 (isEvents_inFrag st _ hf.1.1) hx.1.1; have gb := ihb.1 hf.1.2 hx.1.2
+      simp only [Good, Step, StepAt, gen, pass, genAt, passAt, lateRead, Bool.or_eq_true] at *
       grind
   | whileBrk _ _ ihc ihb =>
-      refine ⟨fun hf => ?_, by simp [inFrag.inHs]⟩
+      refine ⟨fun hf hx => ?_, by simp [inFrag.inHs]⟩
       simp only [inFrag, Bool.and_eq_true] at hf
-      have gb := ihb.1 hf.1.2
+      simp only [exNames, List.mem_append, not_or, or_and_left] at hx
+      have gb := ihb.1 hf.1.2 hx.1.2
       simp [Good] at gb
   | whileAbort _ _ hob ihc ihb =>
-      refine ⟨fun hf => ?_, by simp [inFrag.inHs]⟩
+      refine ⟨fun hf hx => ?_, by simp [inFrag.inHs]⟩
       simp only [inFrag, Bool.and_eq_true] at hf
-      have gc := ihc.1 (isEvents_inFrag st _ hf.1.1); have gb := ihb.1 hf.1.2
-      simp only [Good, Step, StepAt, gen, pass, genAt, passAt] at *
+      simp only [exNames, List.mem_append, not_or, or_and_left] at hx
+      have gc := ihc.1 (isEvents_inFrag st _ hf.1.1) hx.1.1; have gb := ihb.1 hf.1.2 hx.1.2
+      simp only [Good, Step, StepAt, gen, pass, genAt, passAt, lateRead, Bool.or_eq_true] at *
       grind
   | whileS _ ihc =>
-      refine ⟨fun hf => ?_, by simp [inFrag.inHs]⟩
+      refine ⟨fun hf hx => ?_, by simp [inFrag.inHs]⟩
       simp only [inFrag, Bool.and_eq_true] at hf
-      have gc := ihc.1 (isEvents_inFrag st _ hf.1.1)
-      simp only [Good, Step, StepAt, gen, pass, genAt, passAt] at *
+      simp only [exNames, List.mem_append, not_or, or_and_left] at hx
+      have gc := ihc.1 (isEvents_inFrag st _ hf.1.1) hx.1.1
+      simp only [Good, Step, StepAt, gen, pass, genAt, passAt, lateRead, Bool.or_eq_true] at *
       grind
   | @for_ it tg b e σ o σ' _ ih =>
-      refine ⟨fun hf => ?_, by simp [inFrag.inHs]⟩
+      refine ⟨fun hf hx => ?_, by simp [inFrag.inHs]⟩
       simp only [inFrag, Bool.and_eq_true] at hf
+      simp only [exNames, List.mem_append, not_or, or_and_left] at hx
       have hd : inFrag st (.seq it (.while_ .skip (.seq tg b) e)) = true := by
         simp [inFrag, isEvents, isEvents_inFrag st it (isReads_isEvents it hf.1.1.1), isEvents_inFrag st tg (isBinds_isEvents tg hf.1.1.2), hf.1.2, hf.2]
-      have g := ih.1 hd
+      have hxd : sm = true ∨ x ∉ exNames (.seq it (.while_ .skip (.seq tg b) e)) := by
+        simp only [exNames, List.mem_append, not_or, List.nil_append, or_and_left]
+        exact ⟨hx.1.1.1, ⟨hx.1.1.2, hx.1.2⟩, hx.2⟩
+      have g := ih.1 hd hxd
       have nr1 : ∀ r, passAt tg r x = False := fun r => eq_false (isBinds_noReads tg hf.1.1.2 r x none).1
       have nr2 : ∀ r v, genAt tg r x v = False := fun r v => eq_false (isBinds_noReads tg hf.1.1.2 r x v).2
-      simp only [Good, Step, StepAt, gen, pass, genAt, passAt, nr1, nr2] at g ⊢
+      simp only [Good, Step, StepAt, gen, pass, genAt, passAt, lateRead, Bool.or_eq_true, nr1, nr2] at g ⊢
       grind
   | tryN _ _ ihb ihe =>
-      refine ⟨fun hf => ?_, by simp [inFrag.inHs]⟩
+      refine ⟨fun hf hx => ?_, by simp [inFrag.inHs]⟩
       simp only [inFrag, Bool.and_eq_true] at hf
-      have gb := ihb.1 hf.1.1.1.2; have ge := ihe.1 hf.2
-      simp only [Good, Step, StepAt, gen, pass, genAt, passAt] at *
+      simp only [exNames, List.mem_append, not_or, or_and_left] at hx
+      have gb := ihb.1 hf.1.1.1.2 hx.1.1; have ge := ihe.1 hf.2 hx.2
+      simp only [Good, Step, StepAt, gen, pass, genAt, passAt, lateRead, Bool.or_eq_true] at *
       grind
   | tryX _ _ ihb ihh =>
-      refine ⟨fun hf => ?_, by simp [inFrag.inHs]⟩
+      refine ⟨fun hf hx => ?_, by simp [inFrag.inHs]⟩
       simp only [inFrag, Bool.and_eq_true] at hf
-      have gb := ihb.1 hf.1.1.1.2
+      simp only [exNames, List.mem_append, not_or, or_and_left] at hx
+      have gb := ihb.1 hf.1.1.1.2 hx.1.1
       simp [Good] at gb
   | tryX1 _ ihh =>
-      refine ⟨fun hf => ?_, by simp [inFrag.inHs]⟩
+      refine ⟨fun hf hx => ?_, by simp [inFrag.inHs]⟩
       simp only [inFrag, Bool.and_eq_true] at hf
-      have gh := ihh.2 hf.1.2
-      simp only [Good, Step, StepAt, gen, pass, genAt, passAt] at *
+      simp only [exNames, List.mem_append, not_or, or_and_left] at hx
+      have gh := ihh.2 hf.1.2 hx.1.2
+      simp only [Good, Step, StepAt, gen, pass, genAt, passAt, lateRead, Bool.or_eq_true] at *
       grind
   | tryX2 _ _ ihb ihh =>
-      refine ⟨fun hf => ?_, by simp [inFrag.inHs]⟩
+      refine ⟨fun hf hx => ?_, by simp [inFrag.inHs]⟩
       simp only [inFrag, Bool.and_eq_true] at hf
-      have gb := ihb.1 hf.1.1.1.2; have gh := ihh.2 hf.1.2
-      simp only [Good, Step, StepAt, gen, pass, genAt, passAt] at *
+      simp only [exNames, List.mem_append, not_or, or_and_left] at hx
+      have gb := ihb.1 hf.1.1.1.2 hx.1.1; have gh := ihh.2 hf.1.2 hx.1.2
+      simp only [Good, Step, StepAt, gen, pass, genAt, passAt, lateRead, Bool.or_eq_true] at *
       grind
   | tryJ _ hn hx ihb =>
-      refine ⟨fun hf => ?_, by simp [inFrag.inHs]⟩
+      refine ⟨fun hf hx => ?_, by simp [inFrag.inHs]⟩
       simp only [inFrag, Bool.and_eq_true] at hf
-      have gb := ihb.1 hf.1.1.1.2
-      simp only [Good, Step, StepAt, gen, pass, genAt, passAt] at *
+      simp only [exNames, List.mem_append, not_or, or_and_left] at hx
+      have gb := ihb.1 hf.1.1.1.2 hx.1.1
+      simp only [Good, Step, StepAt, gen, pass, genAt, passAt, lateRead, Bool.or_eq_true] at *
       grind
   | @hMatch ty σ nm σ2 hb o σ3 rest _ _ _ ihty ihnm ihhb =>
-      refine ⟨by simp [inFrag], fun hh => ?_⟩
+      refine ⟨by simp [inFrag], fun hh hx => ?_⟩
       simp only [inFrag.inHs, Bool.and_eq_true] at hh
-      have gn := ihnm.1 (isName_inFrag st _ hh.1.1.2); have gb := ihhb.1 hh.1.2
+      simp only [exNames, List.mem_append, not_or, or_and_left] at hx
+      have gn := ihnm.1 (isName_inFrag st _ hh.1.1.2) (.inr (by cases nm <;> simp_all [isName, exNames])); have gb := ihhb.1 hh.1.2 hx.1.2
       have pty := fun v => isReads_pass ty hh.1.1.1 x v
-      have hdel : ∀ d, (delEx nm σ3) x = some d → σ3 x = some d := by
-        intro d; unfold delEx; cases exName nm <;> simp [State.del]
+      have hdel : ∀ v, (sm = true → v ≠ none) → (delEx nm σ3) x = v → σ3 x = v := by
+        intro v hv; unfold delEx
+        cases hn : exName nm with
+        | none => simp
+        | some y =>
+          simp only [State.del]
+          by_cases e : x = y
+          · subst e
+            simp only [if_true]
+            intro hvn
+            rcases hx.1.1.2 with h | h
+            · exact absurd hvn.symm (hv h)
+            · exact absurd (exName_binds nm x hh.1.1.2 hn) h
+          · simp [e]
       clear ihty ihnm ihhb
-      have gn' : ∀ d, σ2 x = some d → gen nm x (some d) ∨ (pass nm x ∧ σ x = some d) := by
+      have gn' : ∀ v, (sm = true → v ≠ none) → σ2 x = v → gen nm x v ∨ (pass nm x ∧ σ x = v) := by
         rcases gn with ⟨_, h⟩ | ⟨r, h, _⟩
         · exact h
         · cases h
       clear gn
       rcases gb with ⟨ho, hs⟩ | ⟨r, ho, hs⟩
-      · refine .inl ⟨ho, fun d hd => ?_⟩
-        have h3 := hs d (hdel d hd)
-        have g2 := gn' d; have p := pty (some d)
+      · refine .inl ⟨ho, fun v hv hd => ?_⟩
+        have h3 := hs v hv (hdel v hv hd)
+        have g2 := gn' v hv; have p := pty v
         simp only [gen, pass]
         rcases h3 with h3 | ⟨h3, h4⟩
         · exact .inl (.inl h3)
         · rcases g2 h4 with g2 | ⟨g2, g3⟩
           · exact .inl (.inr (.inl ⟨h3, .inl g2⟩))
           · exact .inr ⟨.inl ⟨p.1, g2, h3⟩, g3⟩
-      · refine .inr ⟨r, ho, fun d hd => ?_⟩
-        have h3 := hs d (hdel d hd)
-        have g2 := gn' d; have p := pty (some d)
-        simp only [genAt, passAt]
-        rcases h3 with h3 | ⟨h3, h4⟩
-        · exact .inl (.inr (.inl h3))
+      · refine .inr ⟨r, ho, fun v hv hd => ?_⟩
+        have h3 := hs v hv (hdel v hv hd)
+        have g2 := gn' v hv; have p := pty v
+        simp only [genAt, passAt, lateRead, Bool.or_eq_true]
+        rcases h3 with h3 | h3 | ⟨h3, h4⟩
+        · exact .inl (.inl (.inr h3))
+        · exact .inr (.inl (.inr (.inl h3)))
         · rcases g2 h4 with g2 | ⟨g2, g3⟩
-          · exact .inl (.inr (.inr (.inl ⟨h3, .inl g2⟩)))
-          · exact .inr ⟨.inr (.inl ⟨h3, g2, p.1⟩), g3⟩
+          · exact .inr (.inl (.inr (.inr (.inl ⟨h3, .inl g2⟩))))
+          · exact .inr (.inr ⟨.inr (.inl ⟨h3, g2, p.1⟩), g3⟩)
   | hSkip _ _ _ ihty ihr =>
-      refine ⟨by simp [inFrag], fun hh => ?_⟩
+      refine ⟨by simp [inFrag], fun hh hx => ?_⟩
       simp only [inFrag.inHs, Bool.and_eq_true] at hh
-      have gr := ihr.2 hh.2
-      simp only [Good, Step, StepAt, gen, pass, genAt, passAt] at *
+      simp only [exNames, List.mem_append, not_or, or_and_left] at hx
+      have gr := ihr.2 hh.2 hx.2
+      simp only [Good, Step, StepAt, gen, pass, genAt, passAt, lateRead, Bool.or_eq_true] at *
       grind
   | hS _ ihty =>
-      refine ⟨by simp [inFrag], fun hh => ?_⟩
+      refine ⟨by simp [inFrag], fun hh hx => ?_⟩
       simp only [inFrag.inHs, Bool.and_eq_true] at hh
-      have gt := ihty.1 (isEvents_inFrag st _ (isReads_isEvents _ hh.1.1.1))
-      simp only [Good, Step, StepAt, gen, pass, genAt, passAt] at *
+      simp only [exNames, List.mem_append, not_or, or_and_left] at hx
+      have gt := ihty.1 (isEvents_inFrag st _ (isReads_isEvents _ hh.1.1.1)) hx.1.1.1
+      simp only [Good, Step, StepAt, gen, pass, genAt, passAt, lateRead, Bool.or_eq_true] at *
       grind
   | finN _ hns _ ihs ihf =>
-      refine ⟨fun hf => ?_, by simp [inFrag.inHs]⟩
+      refine ⟨fun hf hx => ?_, by simp [inFrag.inHs]⟩
       simp only [inFrag, Bool.and_eq_true] at hf
-      have gs := ihs.1 hf.1; have gf := ihf.1 hf.2
-      simp only [Good, Step, StepAt, gen, pass, genAt, passAt] at *
+      simp only [exNames, List.mem_append, not_or, or_and_left] at hx
+      have gs := ihs.1 hf.1 hx.1; have gf := ihf.1 hf.2 hx.2
+      simp only [Good, Step, StepAt, gen, pass, genAt, passAt, lateRead, Bool.or_eq_true] at *
       grind
   | finA _ hns _ hne ihs ihf =>
-      refine ⟨fun hf => ?_, by simp [inFrag.inHs]⟩
+      refine ⟨fun hf hx => ?_, by simp [inFrag.inHs]⟩
       simp only [inFrag, Bool.and_eq_true] at hf
-      have gs := ihs.1 hf.1; have gf := ihf.1 hf.2
-      simp only [Good, Step, StepAt, gen, pass, genAt, passAt] at *
+      simp only [exNames, List.mem_append, not_or, or_and_left] at hx
+      have gs := ihs.1 hf.1 hx.1; have gf := ihf.1 hf.2 hx.2
+      simp only [Good, Step, StepAt, gen, pass, genAt, passAt, lateRead, Bool.or_eq_true] at *
       grind
   | finS _ ihs =>
-      refine ⟨fun hf => ?_, by simp [inFrag.inHs]⟩
+      refine ⟨fun hf hx => ?_, by simp [inFrag.inHs]⟩
       simp only [inFrag, Bool.and_eq_true] at hf
-      have gs := ihs.1 hf.1
-      simp only [Good, Step, StepAt, gen, pass, genAt, passAt] at *
+      simp only [exNames, List.mem_append, not_or, or_and_left] at hx
+      have gs := ihs.1 hf.1 hx.1
+      simp only [Good, Step, StepAt, gen, pass, genAt, passAt, lateRead, Bool.or_eq_true] at *
       grind
   | @def_ pre σ σ1 f d ps body _ ihp =>
-      refine ⟨fun hf => ?_, by simp [inFrag.inHs]⟩
+      refine ⟨fun hf hx => ?_, by simp [inFrag.inHs]⟩
       simp only [inFrag] at hf
-      have gp := ihp.1 (isEvents_inFrag st _ (isReads_isEvents _ hf))
-      simp only [Good, Step, StepAt, gen, pass, genAt, passAt, State.upd] at *
+      simp only [exNames] at hx
+      have gp := ihp.1 (isEvents_inFrag st _ (isReads_isEvents _ hf)) hx
+      simp only [Good, Step, StepAt, gen, pass, genAt, passAt, lateRead, Bool.or_eq_true, State.upd] at *
       by_cases e : x = f <;> simp_all
   | defS _ ihp =>
-      refine ⟨fun hf => ?_, by simp [inFrag.inHs]⟩
+      refine ⟨fun hf hx => ?_, by simp [inFrag.inHs]⟩
       simp only [inFrag] at hf
-      have gp := ihp.1 (isEvents_inFrag st _ (isReads_isEvents _ hf))
-      simp only [Good, Step, StepAt, gen, pass, genAt, passAt] at *
+      simp only [exNames] at hx
+      have gp := ihp.1 (isEvents_inFrag st _ (isReads_isEvents _ hf)) hx
+      simp only [Good, Step, StepAt, gen, pass, genAt, passAt, lateRead, Bool.or_eq_true] at *
       grind
   | lam _ ihp =>
-      refine ⟨fun hf => ?_, by simp [inFrag.inHs]⟩
+      refine ⟨fun hf hx => ?_, by simp [inFrag.inHs]⟩
       simp only [inFrag] at hf
-      have gp := ihp.1 (isEvents_inFrag st _ (isReads_isEvents _ hf))
-      simp only [Good, Step, StepAt, gen, pass, genAt, passAt] at *
+      simp only [exNames] at hx
+      have gp := ihp.1 (isEvents_inFrag st _ (isReads_isEvents _ hf)) hx
+      simp only [Good, Step, StepAt, gen, pass, genAt, passAt, lateRead, Bool.or_eq_true] at *
       grind
   | lamS _ ihp =>
-      refine ⟨fun hf => ?_, by simp [inFrag.inHs]⟩
+      refine ⟨fun hf hx => ?_, by simp [inFrag.inHs]⟩
       simp only [inFrag] at hf
-      have gp := ihp.1 (isEvents_inFrag st _ (isReads_isEvents _ hf))
-      simp only [Good, Step, StepAt, gen, pass, genAt, passAt] at *
+      simp only [exNames] at hx
+      have gp := ihp.1 (isEvents_inFrag st _ (isReads_isEvents _ hf)) hx
+      simp only [Good, Step, StepAt, gen, pass, genAt, passAt, lateRead, Bool.or_eq_true] at *
       grind
   | @clsN pre σ σ1 body σ2 c d _ _ ihp ihb =>
-      refine ⟨fun hf => ?_, by simp [inFrag.inHs]⟩
+      refine ⟨fun hf hx => ?_, by simp [inFrag.inHs]⟩
       simp only [inFrag, Bool.and_eq_true] at hf
-      have gp := ihp.1 (isEvents_inFrag st _ (isReads_isEvents _ hf.1))
-      simp only [Good, Step, StepAt, gen, pass, genAt, passAt, State.upd] at *
+      simp only [exNames, List.mem_append, not_or, or_and_left] at hx
+      have gp := ihp.1 (isEvents_inFrag st _ (isReads_isEvents _ hf.1)) hx.1
+      simp only [Good, Step, StepAt, gen, pass, genAt, passAt, lateRead, Bool.or_eq_true, State.upd] at *
       by_cases e : x = c <;> simp_all
   | clsX _ _ ihp ihb =>
-      refine ⟨fun hf => ?_, by simp [inFrag.inHs]⟩
+      refine ⟨fun hf hx => ?_, by simp [inFrag.inHs]⟩
       simp only [inFrag, Bool.and_eq_true] at hf
-      have gb := ihb.1 hf.2
+      simp only [exNames, List.mem_append, not_or, or_and_left] at hx
+      have gb := ihb.1 hf.2 hx.2
       simp [Good] at gb
   | clsS _ ihp =>
-      refine ⟨fun hf => ?_, by simp [inFrag.inHs]⟩
+      refine ⟨fun hf hx => ?_, by simp [inFrag.inHs]⟩
       simp only [inFrag, Bool.and_eq_true] at hf
-      have gp := ihp.1 (isEvents_inFrag st _ (isReads_isEvents _ hf.1))
-      simp only [Good, Step, StepAt, gen, pass, genAt, passAt] at *
+      simp only [exNames, List.mem_append, not_or, or_and_left] at hx
+      have gp := ihp.1 (isEvents_inFrag st _ (isReads_isEvents _ hf.1)) hx.1
+      simp only [Good, Step, StepAt, gen, pass, genAt, passAt, lateRead, Bool.or_eq_true] at *
+      grind
+  | @compN it σ σ1 g σ2 _ hg ihit =>
+      refine ⟨fun hf hx => ?_, by simp [inFrag.inHs]⟩
+      simp only [inFrag, Bool.and_eq_true] at hf
+      have git := ihit.1 (isEvents_inFrag st _ (isReads_isEvents _ hf.1.2)) (.inr (by simp [isReads_exNames it hf.1.2]))
+      have cg := chain_ok x hg hf.2
+      have hres : ∀ v, State.restore (compTargets g) σ1 σ2 x = v → σ1 x = v := by
+        intro v hv; unfold State.restore at hv
+        by_cases e : x ∈ compTargets g
+        · simpa [e] using hv
+        · rcases cg with ⟨_, cn⟩ | ⟨r, h, _⟩
+          · have h2 := cn e
+            simp only [e, if_false] at hv
+            rw [← hv, h2]; simp [State.hide, e]
+          · cases h
+      clear cg ihit
+      simp only [Good, Step, StepAt, CS, gen, pass, genAt, passAt, lateRead, Bool.or_eq_true] at *
+      grind
+  | @compS1 it σ r σ1 g _ ihit =>
+      refine ⟨fun hf hx => ?_, by simp [inFrag.inHs]⟩
+      simp only [inFrag, Bool.and_eq_true] at hf
+      have git := ihit.1 (isEvents_inFrag st _ (isReads_isEvents _ hf.1.2)) (.inr (by simp [isReads_exNames it hf.1.2]))
+      simp only [Good, Step, StepAt, CS, gen, pass, genAt, passAt, lateRead, Bool.or_eq_true] at *
+      grind
+  | @compS2 it σ σ1 g r σ2 _ hg ihit =>
+      refine ⟨fun hf hx => ?_, by simp [inFrag.inHs]⟩
+      simp only [inFrag, Bool.and_eq_true] at hf
+      have git := ihit.1 (isEvents_inFrag st _ (isReads_isEvents _ hf.1.2)) (.inr (by simp [isReads_exNames it hf.1.2]))
+      have cg : CS g r x (State.hide (compTargets g) σ1) σ2 := by
+        rcases chain_ok x hg hf.2 with ⟨h, _⟩ | ⟨r', h, h2⟩
+        · cases h
+        · cases h; exact h2
+      have hh : ∀ v, State.hide (compTargets g) σ1 x = v → x ∈ compTargets g ∨ σ1 x = v := by
+        intro v hv; unfold State.hide at hv
+        by_cases e : x ∈ compTargets g
+        · exact .inl e
+        · exact .inr (by simpa [e] using hv)
+      have lp := late_of_pass x r g hf.2
+      clear ihit
+      simp only [Good, Step, StepAt, CS, gen, pass, genAt, passAt, lateRead, Bool.or_eq_true] at *
       grind
   | mayraiseN => simp [inFrag, inFrag.inHs]
   | mayraiseX => simp [inFrag, inFrag.inHs]
